@@ -160,6 +160,7 @@ fn value_failure(f: Fmt, nd: &ND, variant: u64) -> Option<String> {
 }
 
 fn check_value(ctx: &mut Ctx, f: Fmt, nd: &ND, variant: u64, family: &str) {
+    something_fails_first(ctx.report.evaluations as usize);
     ctx.report.eval();
     ctx.report.bump(&format!("family.{}", family));
     ctx.report.bump(&format!("format.{}", f.name()));
@@ -233,6 +234,19 @@ fn vocabulary_sweep(f: Fmt) -> Vec<ND> {
 
 pub fn run(ctx: &mut Ctx) {
     let mut idx = 0usize;
+    // many threads at once (two per core) on values / strings that hold alone
+    if ctx.shard < 4 {
+        let base = base_atoms(&["A", "B"]);
+        let mut cases: Vec<(Fmt, ND)> = vec![];
+        for f in ALL_FMT {
+            let pick = universe_over(&base, 2, false);
+            let step = (pick.len() / 40).max(1);
+            cases.extend(pick.into_iter().step_by(step).take(40).enumerate().map(|(i, t)| (f, wrap_rotating(t, i + ctx.shard))));
+        }
+        let rounds = if ctx.thorough { 60 } else { 6 };
+        concurrent_family(ctx, "C03", "enum parse vs lexical parse + fold", cases, rounds, |c| value_failure(c.0, &c.1, 0));
+    }
+
     for f in ALL_FMT {
         for nd in vocabulary_sweep(f) {
             idx += 1;
